@@ -611,6 +611,8 @@ def main(tier):
                    "law_set_random_seed(<saved>) that undoes it",
                    key="S3|%s" % f.name, path=None if bad is None else g.describe(bad[1]))
     chk.floor("S3", n3, 1)
+    import c13_kinds
+    c13_kinds.s4(prog, chk)
     for k in sorted(an.assumed):
         chk.assumptions.append("draw %s in %s treated as seeded: %s" % (k[1], k[0], ASSUMED_SEEDED[k]))
     return chk.finish()
